@@ -1197,6 +1197,7 @@ func execRunDoc(secs []sx.S, root *ggql.Root, w *world) (obs sx.S) {
 		return b.String()
 	}
 	before := printed()
+	unstable := false
 	outs := []sx.S{}
 	for _, c := range section(secs, "calls") {
 		cl := sx.List(c)
@@ -1232,8 +1233,15 @@ func execRunDoc(secs []sx.S, root *ggql.Root, w *world) (obs sx.S) {
 			data = canonData(result["data"])
 		}
 		outs = append(outs, sx.L("resp", data, sortSexps(errs), append([]sx.S{}, w.calls...)))
+		// printing reads the request: two prints in a row are the same text, and the calls that follow
+		// answer as if nothing had been printed
+		if p1, p2 := printed(), printed(); p1 != p2 {
+			unstable = true
+		}
 	}
 	switch after := printed(); {
+	case unstable:
+		outs = append(outs, sx.L("printed", "unstable"))
 	case after == before:
 		outs = append(outs, sx.L("printed", "same"))
 	case tokensWithin(after, before):
